@@ -155,6 +155,26 @@ func (x *Exec) mergeStates(anc *pcNode, states []*State) *State {
 		}
 	}
 	for _, s := range live[1:] {
+		for k, v := range s.written {
+			if m.written != nil {
+				m.written[k] = v
+			}
+		}
+		for k, v := range s.wrLocal {
+			if m.wrLocal != nil {
+				m.wrLocal[k] = v
+			}
+		}
+		for k, set := range s.wrefs {
+			if m.wrefs != nil {
+				if m.wrefs[k] == nil {
+					m.wrefs[k] = map[string]*pcNode{}
+				}
+				for r, pc := range set {
+					m.wrefs[k][r] = pc
+				}
+			}
+		}
 		for r, v := range s.roRefs {
 			m.roRefs[r] = v
 		}
